@@ -1,1 +1,3 @@
 //! Shared generators (all driven by `engine::Src`).
+pub mod chunks;
+pub mod bytes;
